@@ -73,6 +73,9 @@ func c06Bases(ctx *core.Ctx) []faultBase {
 		{Scenario{Proto: pump.EcKeygen, N: 2, T: 1, Strategy: "fifo", Seed: s + 4}, 4},
 		{Scenario{Proto: pump.EcSigning, N: 3, T: 2, KeyN: 5, Strategy: "fifo", Seed: s + 5}, 1},
 		{Scenario{Proto: pump.EcReshare, N: 3, T: 2, KeyN: 5, NewN: 2, NewT: 1, Strategy: "fifo", Seed: s + 6}, 5},
+		// two signers: every failure a party sees comes from its single peer (per-peer error channels / counters of a
+		// round are then filled by one sender)
+		{Scenario{Proto: pump.EcSigning, N: 2, T: 1, KeyN: 3, Strategy: "fifo", Seed: s + 7}, 1},
 	}
 }
 
@@ -198,6 +201,43 @@ func c06Catalogue(ctx *core.Ctx) ([]FaultCase, error) {
 					continue
 				}
 				cases = append(cases, FaultCase{Sc: sc, Dev: dev, Type: ws.Type, To: to, AfterAbort: true, AsFrom: idx + 1000000})
+			}
+		}
+		// (3b) several misbehaving peers at once: the same alteration in the messages of this type from every sender
+		for ti, ws := range r.samples {
+			if len(ws.Fields) == 0 || len(sendersOf(sc, ws.Type)) < 2 {
+				continue
+			}
+			for fi, f := range ws.Fields {
+				if f.IsList && f.Len == 0 {
+					continue
+				}
+				if expensive && !ctx.Thorough() && (fi+ti)%4 != int(ctx.Seed)%4 {
+					continue
+				}
+				idx := 0
+				if f.IsList {
+					idx = (ti + fi + int(ctx.Seed)) % f.Len
+				}
+				kind := []string{"flipbit", "plus1"}[(ti+fi)%2]
+				cases = append(cases, FaultCase{Sc: sc, Dev: sendersOf(sc, ws.Type)[0], AllDev: true, Type: ws.Type, AfterAbort: true,
+					Spec: tamper.Spec{Field: f.Name, Index: idx, Kind: kind}})
+			}
+		}
+		// (3c) multi-part packings (dln proofs) re-split with the same number of elements
+		for _, ws := range r.samples {
+			for _, f := range ws.Fields {
+				if !f.IsList || !strings.HasPrefix(f.Name, "dlnproof") {
+					continue
+				}
+				snd := sendersOf(sc, ws.Type)
+				for ri, rv := range repackVariants {
+					if !ctx.Thorough() && ri%3 != (int(ctx.Seed)+len(f.Name))%3 && ri != 0 {
+						continue
+					}
+					cases = append(cases, FaultCase{Sc: sc, Dev: snd[len(snd)-1], Type: ws.Type, AfterAbort: true,
+						Craft: &CraftSpec{Kind: "repack", DType: ws.Type, DField: f.Name, Sizes: strings.TrimPrefix(rv, "repack:")}})
+				}
 			}
 		}
 		// (4) crafted relations: commitments that open to degenerate tuples
